@@ -1,2 +1,4 @@
 pub mod c05;
+pub mod c18;
+pub mod codec;
 pub mod hist;
